@@ -17,6 +17,7 @@ import (
 	"math/big"
 	"sort"
 	"strings"
+	"unicode/utf8"
 
 	"golang.org/x/tools/go/ssa"
 )
@@ -718,6 +719,48 @@ func (an *analyzer) run(fn *ssa.Function, params []aval, free []aval, depth int)
 					switch {
 					case a.k == kBot:
 						nv = bot
+					case a.k == kConst && a.c.Kind() == constant.String && isRuneOrByteSlice(x.Type()) != 0:
+						sv := constant.StringVal(a.c)
+						var es []aval
+						if isRuneOrByteSlice(x.Type()) == 'r' {
+							for _, r := range sv {
+								es = append(es, cInt(int64(r)))
+							}
+						} else {
+							for i := 0; i < len(sv); i++ {
+								es = append(es, cInt(int64(sv[i])))
+							}
+						}
+						if es == nil {
+							es = []aval{}
+						}
+						nv = aval{k: kSlice, n: len(es), elems: es}
+					case a.k == kSlice && a.elems != nil && isStringType(x.Type()) && isRuneOrByteSlice(x.X.Type()) != 0:
+						kindc := isRuneOrByteSlice(x.X.Type())
+						okc := true
+						var rs []rune
+						var bs []byte
+						for _, e := range a.elems {
+							iv, ok := constInt(e)
+							if !ok {
+								okc = false
+								break
+							}
+							if kindc == 'r' {
+								rs = append(rs, rune(iv))
+							} else {
+								bs = append(bs, byte(iv))
+							}
+						}
+						if okc {
+							if kindc == 'r' {
+								nv = cStr(string(rs))
+							} else {
+								nv = cStr(string(bs))
+							}
+						} else {
+							nv = top
+						}
 					case a.k == kConst:
 						nv = convertConst(a, x.Type())
 						if nv.k == kConst {
@@ -1233,6 +1276,45 @@ func libModel(sc *ssa.Function, c *ssa.CallCommon, args []aval, site *ssa.Call) 
 			}
 		}
 		return top, true
+	case "strings.Index", "strings.LastIndex", "strings.Count":
+		if len(args) == 2 && args[0].k == kConst && args[1].k == kConst && args[0].c.Kind() == constant.String && args[1].c.Kind() == constant.String {
+			a, b := constant.StringVal(args[0].c), constant.StringVal(args[1].c)
+			switch full {
+			case "strings.Index":
+				return cInt(int64(strings.Index(a, b))), true
+			case "strings.LastIndex":
+				return cInt(int64(strings.LastIndex(a, b))), true
+			default:
+				return cInt(int64(strings.Count(a, b))), true
+			}
+		}
+		return top, true
+	case "unicode/utf8.RuneCountInString":
+		if len(args) == 1 && args[0].k == kConst && args[0].c.Kind() == constant.String {
+			return cInt(int64(utf8.RuneCountInString(constant.StringVal(args[0].c)))), true
+		}
+		return top, true
+	case "strings.ReplaceAll":
+		if len(args) == 3 && args[0].k == kConst && args[1].k == kConst && args[2].k == kConst {
+			return cStr(strings.ReplaceAll(constant.StringVal(args[0].c), constant.StringVal(args[1].c), constant.StringVal(args[2].c))), true
+		}
+		return top, true
+	case "strings.Replace":
+		if len(args) == 4 && args[0].k == kConst && args[1].k == kConst && args[2].k == kConst {
+			if n, ok := constInt(args[3]); ok {
+				return cStr(strings.Replace(constant.StringVal(args[0].c), constant.StringVal(args[1].c), constant.StringVal(args[2].c), int(n))), true
+			}
+		}
+		return top, true
+	case "strings.TrimPrefix", "strings.TrimSuffix":
+		if len(args) == 2 && args[0].k == kConst && args[1].k == kConst && args[0].c.Kind() == constant.String && args[1].c.Kind() == constant.String {
+			a, b := constant.StringVal(args[0].c), constant.StringVal(args[1].c)
+			if full == "strings.TrimPrefix" {
+				return cStr(strings.TrimPrefix(a, b)), true
+			}
+			return cStr(strings.TrimSuffix(a, b)), true
+		}
+		return top, true
 	case "strings.ToLower", "strings.ToUpper":
 		if len(args) == 1 && args[0].k == kConst && args[0].c.Kind() == constant.String {
 			if full == "strings.ToLower" {
@@ -1466,4 +1548,28 @@ func evalBinTyped(x *ssa.BinOp, a, b aval, res *result) aval {
 		}
 	}
 	return evalBin(x.Op, a, b)
+}
+
+func isStringType(t types.Type) bool {
+	b, ok := t.Underlying().(*types.Basic)
+	return ok && b.Info()&types.IsString != 0
+}
+
+// isRuneOrByteSlice: 'r' for []rune, 'b' for []byte, 0 otherwise.
+func isRuneOrByteSlice(t types.Type) byte {
+	sl, ok := t.Underlying().(*types.Slice)
+	if !ok {
+		return 0
+	}
+	b, ok := sl.Elem().Underlying().(*types.Basic)
+	if !ok {
+		return 0
+	}
+	switch b.Kind() {
+	case types.Int32:
+		return 'r'
+	case types.Uint8:
+		return 'b'
+	}
+	return 0
 }
